@@ -19,6 +19,8 @@ func init() {
 			ruleLockOrder(c, "R3")
 			ruleLockOptionReachesTree(c, "R5")
 			ruleGlobals(c, "R6")
+			rulePoolReleaseOnce(c, "R7")
+			ruleGroupOptionOrder(c, "R8")
 		},
 	})
 }
